@@ -212,3 +212,28 @@ PROPS["C10"] = {
     ],
     "assumptions": PROPS["C01"]["assumptions"],
 }
+
+PROPS["C20"] = {
+    "lean_modules": ["BurrowVerif.Props.C20"],
+    "props_files": ["BurrowVerif/Props/C20.lean"],
+    "anchors": ["core/internal/notifier/helpers.go", "config/default-email.tmpl", "config/default-http-post.tmpl", "config/default-http-delete.tmpl",
+                "config/default-slack-post.tmpl", "config/default-slack-delete.tmpl", "core/protocol/evaluator.go", "core/protocol/storage.go"],
+    "streams": [{"name": "tmpl", "keys": None, "trivial": r"^r=(err|parse-error)", "hist_keys": ["r", "json", "gen"],
+                 "scale": {"quick": 1, "thorough": 12}, "seeds": {"quick": 1, "thorough": 3}}],
+    "rule": ("stream tmpl: per case, each of the five shipped templates (loaded from /repo/config with the parse function the notifier's Configure installs) is executed through the real "
+             "executeTemplate on a generated status inside the status invariant with JSON-safe names, one shipped template on arbitrary data (names with quotes, backslashes, control "
+             "characters; nil partitions / nil Start / nil End), and six GENERATED templates over the modelled fragment (field chains incl. typos and nil-pointer paths through Maxlag, "
+             "methods String/Format with wrong arities, len/index/eq/jsonencoder/maxlag/add/minus/multiply/divide with right and wrong kinds, pipelines, if/else, range/else). Statuses: any "
+             "status value incl. out-of-range, 0-6 listed partitions, max-lag nil / OK partition / listed partition, extreme integers, 11 float32 completeness values. The serialised Go "
+             "parse tree is executed by the Lean model; compared: error/no error, the rendered bytes, JSON validity (Lean recogniser vs json.Valid), and equality of the parse tree with the "
+             "generated one the theorems are about. Non-trivial = a successful rendering."),
+    "trusted": [
+        "text/template is modelled for the fragment in use (Model/Tmpl.lean mirrors go1.24 exec.go: method-before-field lookup, nil-pointer receivers, argument assignability, builtins); anything "
+        "outside evaluates to `unsup` and the checker rejects it; validated differentially on generated templates",
+        "renderings by Go library code are parameters of the theorems (arbitrary) and oracle values in the correspondence: fmt of float32, time.Format, json.Marshal of the partitions",
+        "the schema of the template data and the parse trees are regenerated on every run by reflection over the value captured inside a real executeTemplate call and by text/template/parse (harness facts)",
+        "the status invariant (listed partitions are non-nil with non-nil Start/End) is proved of the evaluator model (problem_partition_has_ends, notifier_view_meets_invariant), whose tie to the code is C03/C04's",
+        "JSON clause: the Lean recogniser Model/Json.lean judges the model's rendering and agrees with json.Valid on every real rendering of the run (observed, sampled); see level text for the theorem",
+    ],
+    "assumptions": [],
+}
